@@ -350,6 +350,49 @@ Definition cache_list (store : gvk -> list key) (s : state) (g : gvk) (ns : N) :
   | Some _ => Some (if ns =? 0 then store g else filter (fun k => fst k =? ns) (store g))
   end.
 
+(** The owner-deletion helper of the controllers, internal/controllers/controllers.go:
+    FreeCacheAndRemoveFinalizer (lines 89-98) = Cache.Free, and only if that succeeded RemoveFinalizer
+    (lines 53-75), which sends a merge patch unless the object in hand carries no cached finalizer.
+    The API server's answer to the patch is adversarial. *)
+Inductive patch_outcome :=
+| patch_ok
+| patch_not_found         (* the owner object is already gone *)
+| patch_conflict
+| patch_internal_error
+| patch_lost_response.    (* applied by the server, but the client sees an error *)
+
+Inductive helper_ret := RetNil | RetFreeErr | RetPatchErr.
+
+Definition patch_applied (p : patch_outcome) : bool :=
+  match p with patch_ok | patch_lost_response => true | _ => false end.
+Definition patch_ret (p : patch_outcome) : helper_ret :=
+  match p with patch_ok => RetNil | _ => RetPatchErr end.
+
+(** RemoveFinalizer: (a patch was sent, what the helper returns) *)
+Definition remove_finalizer (has_fin : bool) (p : patch_outcome) : bool * helper_ret :=
+  if has_fin then (true, patch_ret p) else (false, RetNil).
+
+(** EnsureFinalizer (controllers.go:22-47) *)
+Definition ensure_finalizer (has_fin : bool) (p : patch_outcome) : bool * helper_ret :=
+  if has_fin then (false, RetNil) else (true, patch_ret p).
+
+Definition free_and_remove_finalizer (stp : state -> op -> state * output) (s : state) (o : owner)
+           (out : outcome) (order : list gvk) (has_fin : bool) (p : patch_outcome)
+  : state * output * bool * helper_ret :=
+  let q := stp s (Free o out order) in                                  (* controllers.go:93 *)
+  match o_err (snd q) with
+  | ErrNone => let r := remove_finalizer has_fin p in (fst q, snd q, fst r, snd r)   (* controllers.go:97 *)
+  | _ => (fst q, snd q, false, RetFreeErr)                              (* controllers.go:94 *)
+  end.
+
+(** The owner object will go away / is gone: the helper reported success, or its patch reached a
+    server that applied it or no longer knows the object. *)
+Definition owner_released (sent : bool) (r : helper_ret) (p : patch_outcome) : bool :=
+  match r with
+  | RetNil => true
+  | _ => sent && (patch_applied p || match p with patch_not_found => true | _ => false end)
+  end.
+
 (** Predicates on operation sequences. *)
 Definition start_failure (out : outcome) : bool :=
   match out with
